@@ -330,16 +330,42 @@ class Engine:
     self.assuming = False        # evaluating a callee postcondition that will be assumed
 
   # ---------------------------------------------------------------- obligations
-  def emit(self, st, kind, goal, node=None, text='', tag=''):
+  def emit(self, st, kind, goal, node=None, text='', tag='', focus=None):
     line = (node.lineno - self.base_line) if node is not None and hasattr(node, 'lineno') else 0
     name = '%s/%s%s' % (self.u['name'], kind, tag)
     if node is not None and kind.startswith('safe'):
       name += '@L%d' % line
     pc = list(st.pc) + list(self.guards)
+    if focus is not None:
+      pc = self.focused(pc, focus[0], focus[1])
     self.obls.append(Obl(name, kind, pc, goal, line, text))
 
   def assume(self, st, f):
     st.pc.append(f)
+
+  def tagged(self, f, tag):
+    """Remembers where an assumption came from (an invariant of loop i, a precondition), so that a `focus` hint
+    of the sidecar can leave out assumptions an obligation does not need (dropping hypotheses is always sound)."""
+    self.__dict__.setdefault('ftags', {})[f.get_id()] = tag
+    return f
+
+  def focused(self, pc, idx, k):
+    spec = self.u.get('loops', {}).get(idx, {}).get('focus', {}).get(k)
+    if spec is None:
+      return pc
+    keep_inv = {(idx, x) if isinstance(x, int) else tuple(x) for x in spec.get('inv', [])}
+    keep_req = spec.get('req')
+    tags = self.__dict__.get('ftags', {})
+    out = []
+    for f in pc:
+      t = tags.get(f.get_id())
+      if t is None:
+        out.append(f)
+      elif t[0] == 'inv' and (t[1], t[2]) in keep_inv:
+        out.append(f)
+      elif t[0] == 'req' and (keep_req is None or t[1] in keep_req):
+        out.append(f)
+    return out
 
   # ---------------------------------------------------------------- types
   def ty(self, s):
@@ -355,7 +381,7 @@ class Engine:
   # ---------------------------------------------------------------- expressions
   def ev(self, n, st, want=None):
     ab = self.u.get('abstract_exprs')
-    if ab and isinstance(n, (ast.Subscript, ast.Call, ast.Compare, ast.Attribute)):
+    if ab and isinstance(n, (ast.Subscript, ast.Call, ast.Compare, ast.Attribute, ast.SetComp, ast.ListComp, ast.DictComp)):
       key = ast.unparse(n)
       if key not in ab and isinstance(n, ast.Compare) and len(n.ops) == 1 and isinstance(n.ops[0], ast.NotIn):
         pos = ast.Compare(left=n.left, ops=[ast.In()], comparators=n.comparators)
@@ -371,6 +397,9 @@ class Engine:
       raise Unsupported('expression %s at line %d' % (type(n).__name__, getattr(n, 'lineno', 0)))
     v = m(n, st, want) if m.__code__.co_argcount == 4 else m(n, st)
     if want is not None and isinstance(v, V) and not isinstance(want, str) and v.t != want:
+      if v.t.kind in ('list', 'set', 'dict') and want.kind in ('list', 'set', 'dict') and v.t.kind != want.kind \
+          and v.meta != 'empty':
+        return v       # a local rebound to a container of another kind (`xs = set(xs)`): re-typed on this path
       v = coerce(v, want)
     return v
 
@@ -587,6 +616,21 @@ class Engine:
         return b
       if b.meta == 'empty':
         return a
+      if self.u.get('concat_axioms') and not self.spec and st is not None:
+        # a + b as a fresh list constant characterised position by position (triggers on c[j], a[i], b[i]); the
+        # lambda form needs the solver to invent `len(a) + i` as a witness, which it does not
+        c = sv.fresh(a.t, 'concat')
+        i = z3.Int(sv.fresh_name('ci'))
+        na, nb = sv.l_len(a), sv.l_len(b)
+        ca, aa, ba = sv.l_arr(c), sv.l_arr(a), sv.l_arr(b)
+        st.pc.append(sv.l_len(c) == na + nb)
+        st.pc.append(z3.ForAll([i], z3.Implies(z3.And(0 <= i, i < na), z3.Select(ca, i) == z3.Select(aa, i)),
+                               patterns=[z3.Select(ca, i), z3.Select(aa, i)]))
+        st.pc.append(z3.ForAll([i], z3.Implies(z3.And(0 <= i, i < nb), z3.Select(ca, na + i) == z3.Select(ba, i)),
+                               patterns=[z3.Select(ba, i)]))
+        st.pc.append(z3.ForAll([i], z3.Implies(z3.And(na <= i, i < na + nb), z3.Select(ca, i) == z3.Select(ba, i - na)),
+                               patterns=[z3.Select(ca, i)]))
+        return c
       return list_concat(a, b)
     if ka == 'set' and kb == 'set':
       x = z3.Const('x!so', sv.zsort(a.t.args[0]))
@@ -594,6 +638,15 @@ class Engine:
         a = coerce(a, b.t)
       if b.meta == 'empty':
         b = coerce(b, a.t)
+      if self.u.get('set_axioms') and not self.spec and st is not None and \
+          isinstance(op, (ast.BitOr, ast.BitAnd, ast.Sub)):
+        # the result as a fresh set constant defined point by point (no array lambda: cvc5 can read it)
+        c = sv.fresh(a.t, 'setop')
+        xs = z3.Const(sv.fresh_name('sx'), sv.zsort(a.t.args[0]))
+        ina, inb = z3.Select(a.z, xs), z3.Select(b.z, xs)
+        body = {ast.BitOr: z3.Or(ina, inb), ast.BitAnd: z3.And(ina, inb), ast.Sub: z3.And(ina, z3.Not(inb))}[type(op)]
+        st.pc.append(z3.ForAll([xs], z3.Select(c.z, xs) == body, patterns=[z3.Select(c.z, xs)]))
+        return c
       if isinstance(op, ast.BitOr):
         return V(a.t, z3.Lambda([x], z3.Or(z3.Select(a.z, x), z3.Select(b.z, x))))
       if isinstance(op, ast.BitAnd):
@@ -777,6 +830,9 @@ class Engine:
     k = cont.t.kind
     if cont.meta == 'empty':
       return z3.BoolVal(False)
+    if k in ('set', 'dict', 'list') and isinstance(x, V) and x.t.kind == 'opt' and cont.t.args[0].kind != 'opt':
+      # None is not an element of a container of non-optional elements
+      return z3.And(z3.Not(sv.opt_is_none(x)), self.contains(cont, sv.opt_val(x)))
     if k == 'set':
       return z3.Select(cont.z, coerce(x, cont.t.args[0]).z)
     if k == 'dict':
@@ -847,6 +903,8 @@ class Engine:
       j = idx.z if self.nonneg(idx.z) else z3.If(idx.z < 0, idx.z + ln, idx.z)
       return V(base.t.args[0], z3.Select(sv.l_arr(base), j))
     if k == 'dict':
+      if isinstance(idx, V) and idx.t.kind == 'opt' and base.t.args[0].kind != 'opt':
+        idx = self.unwrap(idx, st, n, 'dict key')      # None is never a key of this dict: obligation `is not None`
       key = coerce(idx, base.t.args[0])
       self.emit(st, 'safe-key', z3.Select(sv.d_keys(base), key.z), n, 'dict key present')
       return V(base.t.args[1], z3.Select(sv.d_vals(base), key.z))
@@ -928,6 +986,9 @@ class Engine:
 
   def e_ListComp(self, n, st, want=None):
     # [elt for x in range(a, b)] / [elt for x in L]  (no filter): a map
+    if len(n.generators) == 1 and n.generators[0].ifs and isinstance(n.elt, ast.Name) and \
+        isinstance(n.generators[0].target, ast.Name) and n.elt.id == n.generators[0].target.id:
+      return self.filter_comp(n, st)
     if len(n.generators) != 1 or n.generators[0].ifs:
       raise Unsupported('list comprehension with filter / nesting')
     g = n.generators[0]
@@ -960,6 +1021,45 @@ class Engine:
         self.bound[name] = saved
     t = Ty('list', [e.t])
     return sv.mk_list(t, z3.Lambda([k], e.z), ln)
+
+  def filter_comp(self, n, st):
+    """[x for x in L if cond(x)]: a fresh list E with the assumed contract of a filter: E is the subsequence
+    of L (strictly increasing source positions f) made of the elements that satisfy cond, and every element of L
+    that satisfies cond occurs in E (at position g)."""
+    g_ = n.generators[0]
+    name = g_.target.id
+    src = self.ev(g_.iter, st)
+    if not isinstance(src, V) or src.t.kind != 'list' or src.meta == 'empty':
+      raise Unsupported('filter comprehension over %r' % (getattr(src, 't', src),))
+    et = src.t.args[0]
+    E = sv.fresh(src.t, 'filtered')
+    tagn = str(E.z)
+    f = uf('fsrc_' + tagn, [z3.IntSort()], z3.IntSort())
+    gi = uf('fdst_' + tagn, [z3.IntSort()], z3.IntSort())
+    i, j = z3.Int(sv.fresh_name('fi')), z3.Int(sv.fresh_name('fj'))
+    ln, sl = sv.l_len(E), sv.l_len(src)
+
+    def cond(elem):
+      saved = self.bound.get(name)
+      self.bound[name] = V(et, elem)
+      try:
+        return z3.And(*[truthy(self.ev(c_, st)) for c_ in g_.ifs])
+      finally:
+        if saved is None:
+          self.bound.pop(name, None)
+        else:
+          self.bound[name] = saved
+    ei = z3.Select(sv.l_arr(E), i)
+    self.assume(st, z3.And(ln >= 0, ln <= sl))
+    self.assume(st, z3.ForAll([i], z3.Implies(z3.And(0 <= i, i < ln), z3.And(
+        0 <= f(i), f(i) < sl, ei == z3.Select(sv.l_arr(src), f(i)), cond(ei))), patterns=[ei]))
+    self.assume(st, z3.ForAll([i, j], z3.Implies(z3.And(0 <= i, i < j, j < ln), f(i) < f(j)), patterns=[z3.MultiPattern(f(i), f(j))]))
+    sj = z3.Select(sv.l_arr(src), j)
+    self.assume(st, z3.ForAll([j], z3.Implies(z3.And(0 <= j, j < sl, cond(sj)), z3.And(
+        0 <= gi(j), gi(j) < ln, z3.Select(sv.l_arr(E), gi(j)) == sj)), patterns=[sj]))
+    self.u.setdefault('_assumed', set()).add(
+        '[x for x in L if c(x)]: the subsequence of L of the elements satisfying c (order kept, nothing dropped)')
+    return E
 
   def e_SetComp(self, n, st, want=None):
     if len(n.generators) != 1:
@@ -1096,6 +1196,16 @@ class Engine:
       if v.t.kind == 'list':
         if v.meta == 'empty':
           return V(Ty('set', [INT]), None, meta='empty')
+        if self.u.get('set_axioms') and not self.spec:
+          c = sv.fresh(Ty('set', [v.t.args[0]]), 'setof')
+          xs = z3.Const(sv.fresh_name('sx'), sv.zsort(v.t.args[0]))
+          i_ = z3.Int(sv.fresh_name('si'))
+          pos = uf('pos_' + str(c.z), [sv.zsort(v.t.args[0])], z3.IntSort())
+          el = z3.Select(sv.l_arr(v), i_)
+          st.pc.append(z3.ForAll([i_], z3.Implies(z3.And(0 <= i_, i_ < sv.l_len(v)), z3.Select(c.z, el)), patterns=[el]))
+          st.pc.append(z3.ForAll([xs], z3.Implies(z3.Select(c.z, xs), z3.And(
+              0 <= pos(xs), pos(xs) < sv.l_len(v), z3.Select(sv.l_arr(v), pos(xs)) == xs)), patterns=[z3.Select(c.z, xs)]))
+          return c
         return set_of_list(v)
       if v.t.kind == 'dict':
         return V(Ty('set', [v.t.args[0]]), sv.d_keys(v))
@@ -1193,6 +1303,8 @@ class Engine:
       idx = uf('idx_' + str(r.z), [sv.zsort(et)], z3.IntSort())
       self.assume(st, z3.ForAll([x], z3.Implies(z3.Select(v.z, x), z3.And(
           0 <= idx(x), idx(x) < ln, z3.Select(arr, idx(x)) == x))))
+      self.assume(st, z3.ForAll([i, j], z3.Implies(z3.And(0 <= i, i < j, j < ln),
+                                                    z3.Select(arr, i) != z3.Select(arr, j))))
       if et.kind in ('int',):
         self.assume(st, z3.ForAll([i, j], z3.Implies(z3.And(0 <= i, i < j, j < ln),
                                                       z3.Select(arr, i) < z3.Select(arr, j))))
@@ -1540,7 +1652,8 @@ class Engine:
         try:
           val = coerce(val, t)
         except Unsupported:
-          if self.declared(target.id) is not None:
+          if self.declared(target.id) is not None and not (
+              val.t.kind in ('list', 'set', 'dict') and t.kind in ('list', 'set', 'dict') and val.t.kind != t.kind):
             raise
           # undeclared local re-bound to a value of another type: paths are never merged, so the
           # name simply takes the new type on this path
@@ -1826,8 +1939,8 @@ class Engine:
     written = self.written_names(s.body)
     h = st.copy()
     self.havoc(written, h)
-    for inv in invs:
-      h.pc.append(self.spec_formula(inv, h, old_env=entry_env))
+    for k_, inv in enumerate(invs):
+      h.pc.append(self.tagged(self.spec_formula(inv, h, old_env=entry_env), ('inv', idx, k_)))
     c = truthy(self.ev(s.test, h))
     out = []
     # iteration
@@ -1841,7 +1954,7 @@ class Engine:
       if oc in (NORMAL, CONTINUE):
         for k, inv in enumerate(invs):
           self.emit(s2, 'loop-preserved', self.spec_formula(inv, s2, old_env=entry_env), s, inv,
-                    tag='%s.inv%d]' % (tag, k))
+                    tag='%s.inv%d]' % (tag, k), focus=(idx, k))
         if dec0 is not None:
           self.emit(s2, 'loop-decreases', self.spec_term(spec['dec'], s2) < dec0, s, spec['dec'],
                     tag='%s]' % tag)
@@ -1887,6 +2000,8 @@ class Engine:
           and not it.args:
         return self.for_dict_items(s, st, idx, spec)
       c = self.ev(it, st)
+      if isinstance(c, V) and c.t.kind == 'set' and c.meta != 'empty':
+        return self.for_dict_items(s, st, idx, spec, over_set=c)
       if not isinstance(c, V) or c.t.kind != 'list':
         raise Unsupported('for over %r at line %d' % (getattr(c, 't', c), s.lineno))
       if c.meta == 'empty':
@@ -1903,8 +2018,8 @@ class Engine:
     i = z3.Int(sv.fresh_name(ivar))
     h.env[ivar] = sv.mk_int(i)
     h.pc.append(z3.And(0 <= i, i <= ln))
-    for inv in invs:
-      h.pc.append(self.spec_formula(inv, h, old_env=entry_env))
+    for k_, inv in enumerate(invs):
+      h.pc.append(self.tagged(self.spec_formula(inv, h, old_env=entry_env), ('inv', idx, k_)))
     out = []
     itst = h.copy()
     itst.pc.append(i < ln)
@@ -1914,7 +2029,7 @@ class Engine:
         s2.env[ivar] = sv.mk_int(i + 1)
         for k, inv in enumerate(invs):
           self.emit(s2, 'loop-preserved', self.spec_formula(inv, s2, old_env=entry_env), s, inv,
-                    tag='%s.inv%d]' % (tag, k))
+                    tag='%s.inv%d]' % (tag, k), focus=(idx, k))
       elif oc == BREAK:
         out.append((s2, NORMAL, None))
       else:
@@ -1924,13 +2039,14 @@ class Engine:
     out.append((ex, NORMAL, None))
     return out
 
-  def for_dict_items(self, s, st, idx, spec):
-    """for k, v in d.items(): the visiting order and number of iterations are abstracted: the body is
-    executed for an arbitrary entry of d from an arbitrary state satisfying the invariant."""
+  def for_dict_items(self, s, st, idx, spec, over_set=None):
+    """for k, v in d.items() / for x in <set>: the visiting order and number of iterations are abstracted:
+    the body is executed for an arbitrary entry of d (member of the set) from an arbitrary state satisfying
+    the invariant; after the loop only the invariant is known."""
     tag = '[loop%d' % idx
     invs = spec.get('inv', [])
-    d = self.ev(s.iter.func.value, st)
-    if not isinstance(d, V) or d.t.kind != 'dict':
+    d = over_set if over_set is not None else self.ev(s.iter.func.value, st)
+    if over_set is None and (not isinstance(d, V) or d.t.kind != 'dict'):
       raise Unsupported('items() of %r' % (getattr(d, 't', d),))
     entry_env = dict(st.env)
     for k, inv in enumerate(invs):
@@ -1938,19 +2054,23 @@ class Engine:
     written = self.written_names(s.body) | {x.id for x in ast.walk(s.target) if isinstance(x, ast.Name)}
     h = st.copy()
     self.havoc(written, h)
-    for inv in invs:
-      h.pc.append(self.spec_formula(inv, h, old_env=entry_env))
+    for k_, inv in enumerate(invs):
+      h.pc.append(self.tagged(self.spec_formula(inv, h, old_env=entry_env), ('inv', idx, k_)))
     out = []
     itst = h.copy()
     key = sv.fresh(d.t.args[0], 'key')
-    itst.pc.append(z3.Select(sv.d_keys(d), key.z))
-    val = V(d.t.args[1], z3.Select(sv.d_vals(d), key.z))
-    self.assign(s.target, sv.mk_tuple([key, val]), itst)
+    if over_set is not None:
+      itst.pc.append(z3.Select(d.z, key.z))
+      self.assign(s.target, key, itst)
+    else:
+      itst.pc.append(z3.Select(sv.d_keys(d), key.z))
+      val = V(d.t.args[1], z3.Select(sv.d_vals(d), key.z))
+      self.assign(s.target, sv.mk_tuple([key, val]), itst)
     for s2, oc, v_ in self.block(s.body, itst):
       if oc in (NORMAL, CONTINUE):
         for k, inv in enumerate(invs):
           self.emit(s2, 'loop-preserved', self.spec_formula(inv, s2, old_env=entry_env), s, inv,
-                    tag='%s.inv%d]' % (tag, k))
+                    tag='%s.inv%d]' % (tag, k), focus=(idx, k))
       elif oc == BREAK:
         out.append((s2, NORMAL, None))
       else:
@@ -1997,7 +2117,7 @@ class Engine:
     for ax in u.get('axioms', []):
       st.pc.append(self.spec_formula(ax, st))
     for r in u.get('requires', []):
-      st.pc.append(self.spec_formula(r, st))
+      st.pc.append(self.tagged(self.spec_formula(r, st), ('req', u.get('requires', []).index(r))))
     self.pre_state = st.copy()
     self.obls.append(Obl(u['name'] + '/pre-satisfiable', 'vacuity', list(st.pc), None, 0,
                          'preconditions are satisfiable', expect='sat'))
